@@ -612,7 +612,9 @@ def _anchored_keys(prog: Program, pid: str) -> set[str]:
         parts = f.qual.split(".")
         return f.module.rel in files and any(p_ in words for p_ in parts if not p_.startswith("__"))
 
-    return {k for k, props in fn2.items() if pid in props} | {k for k, f in prog.funcs.items() if named(f)}
+    keys = {k for k, props in fn2.items() if pid in props} | {k for k, f in prog.funcs.items() if named(f)}
+    # what an object prints as is no behaviour any of the properties speaks about
+    return {k for k in keys if not any(part in ("__str__", "__repr__") for part in k.split("::")[-1].split("."))}
 
 
 def rule_rx_added_exit(prog: Program, report: Report, pid: str) -> None:
@@ -836,6 +838,37 @@ def _edit_between(a: ast.AST, b: ast.AST) -> list[tuple[str, ast.AST, ast.AST]]:
     return out
 
 
+def _base_init_has_effect(prog: Program, fn) -> bool:  # noqa: ANN001
+    """Does some base class of the method's class (inside the package) define an `__init__` with a body?
+    Unknown bases (outside the package, other than object / ABC helpers) count as having one."""
+    cls_key = fn.key.rsplit(".", 1)[0]
+    if cls_key not in prog.classes:
+        return True
+    todo, seen = [prog.classes[cls_key][1]], set()
+    first = True
+    while todo:
+        c = todo.pop()
+        if id(c) in seen:
+            continue
+        seen.add(id(c))
+        if not first:
+            for st in c.body:
+                if isinstance(st, ast.FunctionDef) and st.name == "__init__":
+                    body = [b for b in st.body if not (isinstance(b, ast.Expr) and isinstance(b.value, ast.Constant)) and not isinstance(b, ast.Pass)]
+                    if body:
+                        return True
+        first = False
+        for b in c.bases:
+            name = b.id if isinstance(b, ast.Name) else (b.attr if isinstance(b, ast.Attribute) else None)
+            if name in ("object", "ABC", "Generic", "Protocol") or name is None and isinstance(b, ast.Subscript):
+                continue
+            cands = [v_[1] for k_, v_ in prog.classes.items() if k_.split("::")[-1] == name]
+            if not cands:
+                return True
+            todo.extend(cands)
+    return False
+
+
 def rule_rx_edit(prog: Program, report: Report, pid: str) -> None:
     """One statement or one test of an anchored function computes something else and the rest of the
     function is the reviewed one, word for word: a literal with another value, `+` for `-`, `and` for
@@ -902,7 +935,9 @@ def rule_rx_edit(prog: Program, report: Report, pid: str) -> None:
             text = gone_s[0]
             old = parse(text)
             verdict = None
-            if isinstance(old, ast.Expr) and any(isinstance(x, (ast.Call, ast.Await, ast.Yield, ast.YieldFrom)) for x in ast.walk(old)):
+            if isinstance(old, ast.Expr) and text == "super().__init__()" and not _base_init_has_effect(prog, fn):
+                verdict = None  # object.__init__ / an empty base initialiser
+            elif isinstance(old, ast.Expr) and any(isinstance(x, (ast.Call, ast.Await, ast.Yield, ast.YieldFrom)) for x in ast.walk(old)):
                 verdict = "the call it made is no longer made"
             elif isinstance(old, (ast.Assign, ast.AugAssign, ast.AnnAssign)) and getattr(old, "value", None) is not None:
                 tg = old.targets if isinstance(old, ast.Assign) else [old.target]
